@@ -31,10 +31,10 @@ def cases(shard, tier):
     widths = ['s', 1, 3] if tier == 'quick' else ['s', 1, 2, 3, 5]
     for width, cast, dim, el, src in itertools.product(widths, CASTS[d], ['unset', 'equal', 'different'],
                                                        ['unset', 'equal', 'larger', 'moredims', 'smaller'],
-                                                       ['inline', 'dict', 'struct', 'h5']):
+                                                       ['inline', 'dict', 'struct', 'h5', 'struct-padded']):
         if shard['topo'] == 'dup-name' and (dim != 'unset' or el != 'unset'):
             continue
-        if src in ('struct', 'h5') and shard['topo'] in ('alias', 'alias-same-frame'):
+        if src in ('struct', 'h5', 'struct-padded') and shard['topo'] in ('alias', 'alias-same-frame'):
             continue        # aliasing needs a data set name that differs from the channel name: dict/inline only
         yield {'dtype': d, 'topo': shard['topo'], 'width': width, 'cast': cast, 'dim': dim, 'el': el, 'src': src}
         if (dim != 'unset' or el != 'unset' or cast) and src in ('inline', 'dict'):
@@ -133,12 +133,13 @@ def make_spec(c):
     sp = {'sul': {'max_record_length': 8192}, 'ops': ops, 'write': {}}
     if c['src'] == 'dict':
         sp['write']['data'] = {'$datadict': data}
-    elif c['src'] == 'struct':
+    elif c['src'] in ('struct', 'struct-padded'):
         # fields in the order in which the frames list their channels (a structured source equal to the frame's dtype)
         order = [op['name'] for op in ops if op.get('kind') == 'channel']
         frame_order = [ops_by_h[r['$ref']] for op in ops if op.get('kind') == 'frame' for r in op['kw']['channels']]
         names = list(dict.fromkeys(frame_order + order))
-        sp['write']['data'] = {'$struct': {'fields': [[k, data[k]] for k in names if k in data]}}
+        sp['write']['data'] = {'$struct': {'fields': [[k, data[k]] for k in names if k in data],
+                                           'padded': c['src'] == 'struct-padded'}}
     elif c['src'] == 'h5':
         sp['write']['data'] = {'$h5': {'/' + k: v for k, v in data.items()}}
     return sp
